@@ -4,6 +4,7 @@ mod codec;
 mod common;
 mod craft;
 mod e1;
+mod hostile;
 mod sim;
 mod wire;
 
@@ -24,6 +25,7 @@ fn main() {
                 finish(e1::check(&args))
             }
         }
+        "C09" => finish(hostile::check(&args)),
         "C07" => finish(wire::check_c07(&args)),
         "C08" => finish(wire::check_c08(&args)),
         other => {
